@@ -21,6 +21,15 @@ type port interface {
 
 var ports = map[string]func() port{}
 
+var echoOps bool
+
+func trunc(s string) string {
+	if len(s) > 120 {
+		return s[:120]
+	}
+	return s
+}
+
 var slowLog = os.Getenv("HARNESS_SLOW") != ""
 
 func main() {
@@ -33,6 +42,7 @@ func main() {
 		fmt.Fprintln(os.Stderr, "unknown port", os.Args[1])
 		os.Exit(2)
 	}
+	echoOps = os.Args[1] == "session"
 	p := mk()
 	in := bufio.NewReaderSize(os.Stdin, 1<<20)
 	out := bufio.NewWriterSize(os.Stdout, 1<<16)
@@ -42,6 +52,9 @@ func main() {
 		line = strings.TrimSpace(line)
 		if line != "" && !strings.HasPrefix(line, "#") {
 			t0 := time.Now()
+			if echoOps && !strings.HasPrefix(line, "reset") && !strings.HasPrefix(line, "end ") {
+				out.WriteString("> " + trunc(line) + "\n")
+			}
 			obs := safeExec(&p, mk, strings.Fields(line))
 			if d := time.Since(t0); slowLog && d > 20*time.Millisecond {
 				fmt.Fprintf(os.Stderr, "slow %v: %.60s\n", d, line)
